@@ -707,3 +707,77 @@ impl OptSpec {
         h.finish()
     }
 }
+
+/// One step on the way from the root of a definition down to an item
+#[derive(Clone, Debug)]
+pub enum PathEl<'a> {
+    Wrap(&'a W, Id),
+    Seq,
+    Alt(usize),
+    Adj,
+    Cmd(&'a CmdSpec),
+}
+
+impl Spec {
+    /// path from this spec down to the item with the given id, outermost first
+    pub fn path_to(&self, id: Id) -> Option<Vec<PathEl<'_>>> {
+        fn go<'a>(s: &'a Spec, id: Id, acc: &mut Vec<PathEl<'a>>) -> bool {
+            match s {
+                Spec::Item(i) => i.id == id,
+                Spec::Wrap { w, id: wid, inner } => {
+                    acc.push(PathEl::Wrap(w, *wid));
+                    if go(inner, id, acc) {
+                        return true;
+                    }
+                    acc.pop();
+                    false
+                }
+                Spec::Seq(xs) | Spec::Adj(xs) => {
+                    acc.push(if matches!(s, Spec::Seq(_)) {
+                        PathEl::Seq
+                    } else {
+                        PathEl::Adj
+                    });
+                    for x in xs {
+                        if go(x, id, acc) {
+                            return true;
+                        }
+                    }
+                    acc.pop();
+                    false
+                }
+                Spec::Alt(xs) => {
+                    for (ix, x) in xs.iter().enumerate() {
+                        acc.push(PathEl::Alt(ix));
+                        if go(x, id, acc) {
+                            return true;
+                        }
+                        acc.pop();
+                    }
+                    false
+                }
+                Spec::Cmd(c) => {
+                    acc.push(PathEl::Cmd(c));
+                    if go(&c.opts.root, id, acc) {
+                        return true;
+                    }
+                    acc.pop();
+                    false
+                }
+                Spec::Pure(_) | Spec::Fail(_) => false,
+            }
+        }
+        let mut acc = Vec::new();
+        if go(self, id, &mut acc) {
+            Some(acc)
+        } else {
+            None
+        }
+    }
+
+    pub fn find_item(&self, id: Id) -> Option<&Item> {
+        let mut items = Vec::new();
+        self.all_items(&mut items);
+        items.into_iter().find(|i| i.id == id)
+    }
+}
